@@ -78,6 +78,7 @@ fn event_name(e: &EventKind) -> &'static str {
         EventKind::CloseFd { .. } => "close_fd",
         EventKind::Spawn { .. } => "spawn",
         EventKind::UnmapNamed { .. } => "unmap",
+        EventKind::ForeignTracer { .. } => "foreign_tracer",
     }
 }
 
